@@ -372,6 +372,7 @@ func (s *Subscription) populateResources(r *rpc.Resources, indirect bool) {
 		r.Models[s.rid] = s.model
 	}
 
+	verifNote("subToSend", "cid", s.c.CID(), "rid", s.rid, "sp", s, "state", int(s.state))
 	s.state = stateToSend
 
 	for _, sc := range s.refs {
@@ -417,6 +418,7 @@ func (s *Subscription) populateResourcesLegacy(r *rpc.Resources, indirect bool) 
 		r.Models[s.rid] = (*rescache.Legacy120Model)(s.model)
 	}
 
+	verifNote("subToSend", "cid", s.c.CID(), "rid", s.rid, "sp", s, "state", int(s.state))
 	s.state = stateToSend
 
 	for _, sc := range s.refs {
